@@ -1,8 +1,8 @@
 SPECIFICATION Spec
 CONSTANTS
   Handles = {"c0", "c1", "c2", "c3", "c4", "c5", "c6", "c7", "c8", "c9"}
-  Hooks = {"k1", "p1"}
-  Promises = {"p1"}
+  Hooks = {"k1", "p1", "p2"}
+  Promises = {"p1", "p2"}
   Weaks = {"w1", "w2"}
   Threads = {1, 2, 3}
 CONSTRAINT HighWater
